@@ -343,6 +343,19 @@ def more_permissive(faulty, free) -> bool:
     return False
 
 
+def limit_memory(gb: float = 6.0):
+    """A mutant that propagates garbage (e.g. byte-swapped shape targets) can make an evaluator try to
+    allocate terabytes: cap the address space so that it raises MemoryError instead of getting the
+    whole check killed."""
+    import resource
+
+    lim = int(gb * 2**30)
+    soft, hard = resource.getrlimit(resource.RLIMIT_AS)
+    if hard != resource.RLIM_INFINITY:
+        lim = min(lim, hard)
+    resource.setrlimit(resource.RLIMIT_AS, (lim, hard))
+
+
 def single_threaded_ort():
     """Worker processes run many tiny sessions side by side: one thread each (no semantic effect)."""
     import onnxruntime
